@@ -1,4 +1,98 @@
-import EpsModel.Header
+/-
+  C07 — Zero-copy blocks are padded to their alignment unit; byte counts are exact.
+-/
+import EpsModel.Lemmas.BlocksL
+import EpsModel.Lemmas.HeaderL
 namespace Eps.C07
-theorem placeholder : (1 : Nat) = 1 := rfl
+open Eps
+
+/-! ### The padding formula, for all (offset, power-of-two unit) pairs -/
+
+/-- `pad` is literally the crate's formula `value.wrapping_neg() & (align_to - 1)` on 64-bit words. -/
+theorem pad_is_bit_formula (pos u : Nat) (hu : 0 < u) (hu2 : u < 2^64) :
+    ((-(BitVec.ofNat 64 pos)) &&& (BitVec.ofNat 64 u - 1#64)).toNat = pad pos u := by
+  unfold pad
+  rw [BitVec.toNat_and, BitVec.toNat_neg, BitVec.toNat_sub]
+  simp only [BitVec.toNat_ofNat]
+  have h1 : (2 ^ 64 - 1 % 2 ^ 64 + u % 2 ^ 64) % 2 ^ 64 = u - 1 := by
+    rw [Nat.mod_eq_of_lt hu2]
+    have : 2 ^ 64 - 1 % 2 ^ 64 + u = 2 ^ 64 + (u - 1) := by omega
+    rw [this, Nat.add_mod_left, Nat.mod_eq_of_lt (by omega)]
+  rw [h1]
+
+/-- For every offset and every power-of-two unit (up to 2^63): the padded offset is a multiple of the
+    unit, the gap is smaller than the unit, and no smaller gap reaches a multiple. -/
+theorem pad_spec (pos k : Nat) (hk : k ≤ 63) :
+    (pos + pad pos (2^k)) % 2^k = 0 ∧ pad pos (2^k) < 2^k ∧
+    ∀ g, (pos + g) % 2^k = 0 → pad pos (2^k) ≤ g := by
+  rw [pad_eq_padNat pos k (by omega)]
+  have hp := Nat.two_pow_pos k
+  exact ⟨padNat_spec hp, padNat_lt hp, fun g hg => padNat_min hp hg⟩
+
+/-! ### Units -/
+
+/-- The alignment unit of every zero-copy type of the well-formed universe is a power of two, no
+    smaller than the native alignment (which is a power of two as well). -/
+theorem unit_pow2 (T : Ty) (hz : T.isZC = true) (hw : T.wf = true) :
+    (∃ k, k ≤ 63 ∧ T.maxSizeOf = 2^k) ∧ T.alignOf ≤ T.maxSizeOf :=
+  ⟨(Ty.units T hz hw).2.1, (Ty.units T hz hw).2.2⟩
+
+/-- … and no smaller than the unit of any field (structures), resp. equal to the unit of the
+    element (arrays, tuples). -/
+theorem unit_ge_field (m : AdtMeta) (vn : B) (fds : Fields) (n : B) (e : Bool) (t : Ty)
+    (h : Fields.mem n e t fds) : t.maxSizeOf ≤ (Ty.adt m (.cons vn fds .nil)).maxSizeOf := by
+  have := Fields.unit_le fds n e t h
+  simp only [Ty.maxSizeOf, Variants.maxUnit]; omega
+theorem unit_array (t : Ty) (n : Nat) : (Ty.array t n).maxSizeOf = t.maxSizeOf := rfl
+theorem unit_tuple (t : Ty) (n : Nat) : (Ty.tuple t n).maxSizeOf = t.maxSizeOf := rfl
+
+/-! ### Blocks -/
+
+/-- In every serialized body, wherever it starts, each block of zero-copy data (strings included)
+    starts at a stream offset that is a multiple of its unit. -/
+theorem blocks_aligned (T : Ty) (hw : T.wf = true) (v : Val) (pos : Nat) :
+    ∀ b ∈ T.blocks v pos, b.off % b.unit = 0 :=
+  Ty.blocks_ok T hw v pos
+
+/-- What the writer emits for a zero-copy structure / tuple / array and for a sequence of zero-copy
+    elements: the length (sequences), then exactly `pad` zero bytes, then the memory of the data. With
+    `pad_spec`: the gap consists of zero bytes only and is the smallest that reaches a multiple. -/
+theorem zero_block_shape_struct (m : AdtMeta) (vs : Variants) (fs : List Val) (pos : Nat) (h : m.zero = true) :
+    (Ty.adt m vs).enc (.record fs) pos
+      = zeros (pad pos (Ty.adt m vs).maxSizeOf) ++ (Ty.adt m vs).toMem (.record fs) :=
+  Ty.enc_adt_zero m vs fs pos h
+theorem zero_block_shape_tuple (t : Ty) (n : Nat) (vs : List Val) (pos : Nat) :
+    (Ty.tuple t n).enc (.seq vs) pos = zeros (pad pos t.maxSizeOf) ++ Ty.toMemList t vs := by
+  simp [Ty.enc]
+theorem zero_block_shape_array (t : Ty) (n : Nat) (vs : List Val) (pos : Nat) (h : t.isZC = true) :
+    (Ty.array t n).enc (.seq vs) pos = zeros (pad pos t.maxSizeOf) ++ Ty.toMemList t vs := by
+  simp [Ty.enc, h]
+theorem zero_block_shape_vec (t : Ty) (vs : List Val) (pos : Nat) (h : t.isZC = true) :
+    (Ty.vec t).enc (.seq vs) pos
+      = leBytes 8 vs.length ++ zeros (pad (pos + 8) t.maxSizeOf) ++ Ty.toMemList t vs := by
+  simp [Ty.enc, Ty.encSeq, h]
+
+/-! ### Byte counts -/
+
+/-- The count returned by `serialize` is the number of bytes handed to the writer (in the model:
+    the length of the stream), and the full-copy deserializer consumes exactly that many bytes.
+    (The ε-copy counterpart is `C02.deEps_ser`.) -/
+theorem count_exact_full (H : B → Nat) (hH : ∀ b, H b < 2^64) (T : Ty) (name : B) (v : Val)
+    (hT : T.wf = true) (hv : T.wt v = true) (hname : validUtf8 name = true) (hlen : name.length < 2^63) :
+    ∃ x, T.deFull H (T.ser H name v) = .ok (x, (T.ser H name v).length) := by
+  refine ⟨v, ?_⟩
+  unfold Ty.deFull Ty.ser Ty.header
+  simp only []
+  have h1 : T.typeHash H < 2^64 := hH _
+  have h2 : T.alignHash H < 2^64 := hH _
+  rw [checkHeader_wHeader _ _ name _ h1 h2 hname hlen]
+  simp only [Res.bind_ok]
+  have := Ty.framedFull .reader T hT v hv (wHeader (T.typeHash H) (T.alignHash H) name).length [] (AlignedAll_reader _)
+  simp only [List.append_nil] at this
+  rw [this]; simp
+
+/-! Non-vacuity -/
+example : (Ty.vec (.prim (.int .u64))).wf = true := by simp [Ty.wf, Ty.isZC]
+example : pad 37 8 = 3 ∧ pad 40 8 = 0 ∧ pad 41 16 = 7 := by decide
+
 end Eps.C07
